@@ -74,6 +74,16 @@ def _run_unit(args):
                 test()
         except core.PropertyViolation as e:
             out["violation"] = {"case": e.case, "kind": e.kind, "detail": e.detail, "seed": seed}
+        except BaseException as e:
+            # Hypothesis reports 'Flaky' when a failing case does not fail again on re-execution. check(case) is a pure
+            # function of the case and the code, so a violation that comes and goes means the code under test carried
+            # state from one case to the next inside this process: still a violation, reported with that remark.
+            pv = _find_violation(e)
+            if pv is None:
+                raise
+            out["violation"] = {"case": pv.case, "kind": pv.kind, "seed": seed,
+                                "detail": "[seen once, not on immediate re-execution in the same process: the outcome "
+                                          "depends on what the process did before] " + pv.detail}
         out["rec"] = rec.to_dict()
     except BaseException as e:  # harness error, health check, flaky ...
         out["error"] = "".join(traceback.format_exception(type(e), e, e.__traceback__))[-6000:]
@@ -117,6 +127,18 @@ def _run_fuzz(prop_id, name, runs, seed, out, t0):
         shutil.rmtree(work, ignore_errors=True)
     out["wall"] = round(time.time() - t0, 2)
     return out
+
+
+def _find_violation(exc, depth=0):
+    if exc is None or depth > 6:
+        return None
+    if isinstance(exc, core.PropertyViolation):
+        return exc
+    for sub in getattr(exc, "exceptions", ()) or ():
+        r = _find_violation(sub, depth + 1)
+        if r is not None:
+            return r
+    return _find_violation(exc.__cause__, depth + 1) or _find_violation(exc.__context__, depth + 1)
 
 
 def plan_units(mod, prop_id, tier, seed):
